@@ -298,8 +298,6 @@ func (c *Ctx) adp(which map[string]bool) {
 				}
 			}
 			cid.done(2, "every Delete and every filing lies behind key != clientIDKey")
-			// a failed List or Load ends the adoption: it must not be taken for a damaged record
-			c.errorsNotSkippedIO("ADP-2", ad)
 			corrupt.done(2, "both corrupt-record paths delete, warn and continue before classification")
 			marker.done(1, "markers are checked but not filed")
 		}
